@@ -8,7 +8,9 @@ HARNESSES = [
     dict(name="int", pkg="./internal/pppoe/", test="TestVerifC04Int",
          files=[("internal/pppoe/zz_verif_c04_int_test.go", "harness/C04/zz_verif_c04_int_test.go")]),
 ]
-VARIANTS = ["repaired", "defective", "def_iso", "def_sid"]
+# repaired = all four repairs; head = /repo HEAD (owner check + sid guard committed; id reservation and guarded index
+# removal proposed in fixes/); head_reserve / head_guard = HEAD plus one of the two proposed patches
+VARIANTS = ["repaired", "head", "head_reserve", "head_guard"]
 MODEL_NEEDS_IMPL = True   # the wall-clock second the implementation ran in is read from its output
 RULE = ("ck: cookie cases = one Generate (compared byte for byte) + Validate queries: the 37 truncations, an extension, "
         "every byte flipped, tuple permutations (other MAC, MAC length 0/5/7/8, VLANs swapped/shifted), forged cookies "
@@ -281,7 +283,7 @@ def gen_tb_one(rng, ttl=60, scale=None):
             if x in used:       # a restore never brings back an id twice
                 continue
             used.add(x)
-            ops.append("X/%d/%s" % (x, tup(rng.choice(hosts))))
+            ops.append("X/%d/%s%s" % (x, tup(rng.choice(hosts)), rng.choice(["", "", "/" + NAMES[0], "/" + rng.choice(NAMES)])))
     for _ in range(rng.randint(3, 16)):
         h = rng.choice(hosts)
         r = rng.random()
@@ -315,10 +317,12 @@ def gen_tb_one(rng, ttl=60, scale=None):
         elif r < 0.65:
             ops.append("T/%s/%d" % (tup(h), rng.choice(sids)))
         elif r < 0.92:
-            ops.append("S/%s/%d/%s" % (tup(h), rng.choice(sids), rng.choice(["cr", "cr", "tr"] + KINDS)))
+            ops.append("S/%s/%d/%s" % (tup(h), rng.choice(sids), rng.choice(["cr", "cr", "tr", "name:" + NAMES[0], "name:" + rng.choice(NAMES)] + KINDS)))
         else:
             ops.append("D/%d" % rng.choice(sids))
-    if rng.random() < 0.08:
+    if rng.random() < 0.06:
+        ops.append("P/%d/%d" % (rng.randint(2, 5), rng.choice([100, 101])))
+    elif rng.random() < 0.08:
         ops.append("C/%d/%d" % (rng.randint(2, 12), rng.choice([100, 101])))
     return "tb %s %d G=%s occ=%s next=%s ; %s" % (SECRET, ttl, grp, occ, nxt, " ".join(ops))
 
@@ -348,12 +352,58 @@ def gen_directed():
     return cases
 
 
+NAMES = ["626f62", "616c696365", "62"]      # bob, alice, b
+
+
+def gen_tb_race(rng, tier):
+    """PADRs forced to overlap between allocateSessionID and addToIndexes (gate in the harness's AccessResolver)"""
+    head = "tb %s 60 G=0-199 " % SECRET
+    cases = [head + "occ=- next=- ; P/2/100", head + "occ=- next=65534 ; P/4/101",
+             head + "occ=65535-65535,1-3 next=65535 ; P/3/100",
+             head + "occ=2-2,4-4 next=1 ; R/%s/%s P/3/100" % (tup(A), ck_valid(A)),
+             head + "occ=- next=- ; X/65535/%s P/2/100" % tup(A)]
+    for _ in range(3 if tier == "quick" else 30):
+        st = rng.choice([1, 65533, 65534, 65535, rng.randint(2, 65000)])
+        cases.append(head + "occ=- next=%d ; %s P/%d/100" % (
+            st, " ".join("R/%s/%s" % (tup(h), ck_valid(h)) for h in rng.sample([A, B, A2, A3], rng.randint(0, 3))),
+            rng.randint(2, 6)))
+    return cases
+
+
+def gen_tb_attr(rng, tier):
+    """the username index: a session names itself (CHAP Response) like another session, then is removed"""
+    head = "tb %s 60 G=0-199 occ=- next=- ; " % SECRET
+    cases = []
+    for own, other in [(A, B), (B, A), (A, A2), (("020000aa0001", 100, 0), A)]:
+        for nm in NAMES[:2]:
+            for rm in ("T/%s/8" % tup(own), "D/8"):
+                cases.append(head + " ".join([
+                    "X/7/%s/%s" % (tup(other), NAMES[0]), "R/%s/%s" % (tup(own), ck_valid(own)),
+                    "S/%s/8/name:%s" % (tup(other), nm),        # not the owner: refused
+                    "S/%s/8/name:%s" % (tup(own), nm), rm, "S/%s/7/cr" % tup(other)]))
+        # two restored sessions persisted with the same username; the first one is removed by its owner
+        cases.append(head + " ".join([
+            "X/7/%s/%s" % (tup(other), NAMES[0]), "X/9/%s/%s" % (tup(own), NAMES[0]), "T/%s/7" % tup(other),
+            "T/%s/9" % tup(own)]))
+        cases.append(head + " ".join([
+            "X/7/%s/%s" % (tup(other), NAMES[0]), "X/9/%s/%s" % (tup(own), NAMES[0]), "T/%s/9" % tup(own),
+            "S/%s/7/name:%s" % (tup(other), NAMES[1]), "T/%s/7" % tup(other)]))
+        # renamed away before removal / empty name
+        cases.append(head + " ".join([
+            "X/7/%s/%s" % (tup(other), NAMES[0]), "R/%s/%s" % (tup(own), ck_valid(own)), "S/%s/8/name:%s" % (tup(own), NAMES[0]),
+            "S/%s/8/name:%s" % (tup(own), NAMES[1]), "T/%s/8" % tup(own)]))
+        cases.append(head + " ".join([
+            "X/7/%s/%s" % (tup(other), NAMES[0]), "R/%s/%s" % (tup(own), ck_valid(own)), "S/%s/8/name:-" % tup(own),
+            "T/%s/8" % tup(own)]))
+    return cases
+
+
 FULLSCALE = [
     # id space full: the code as found answers with session-id 0
     "tb %s 60 G=100-199 occ=1-65535 next=777 ; R/%s/%s S/%s/0/cr T/%s/0" % (SECRET, tup(A), ck_valid(A), tup(A), tup(A)),
     # exactly one free id behind the counter: must be found after the wrap
-    "tb %s 60 G=100-199 occ=1-100,102-65535 next=5000 ; R/%s/%s R/%s/%s T/%s/101 R/%s/%s" % (
-        SECRET, tup(A), ck_valid(A), tup(B), ck_valid(B), tup(A), tup(B), ck_valid(B)),
+    "tb %s 60 G=100-199 occ=1-100,102-65535 next=5000 ; R/%s/%s R/%s/%s T/%s/101 P/2/100" % (
+        SECRET, tup(A), ck_valid(A), tup(B), ck_valid(B), tup(A)),
 ]
 THOROUGH_FULLSCALE = [
     "tb %s 60 G=100-199 occ=1-65534 next=- ; R/%s/%s R/%s/%s" % (SECRET, tup(A), ck_valid(A), tup(B), ck_valid(B)),
@@ -367,10 +417,11 @@ def gen_cases(rng, tier, budget):
     n = (budget or 700) if tier == "quick" else (budget or 12000)
     for _ in range(n):
         cases.append(gen_tb_one(rng, ttl=rng.choice([60, 60, 60, 5])))
-    cases += gen_directed()
-    cases += FULLSCALE
+    cases += gen_directed() + gen_tb_race(rng, tier) + gen_tb_attr(rng, tier)
+    # quick: one history with 65535 sessions (last id taken -> id space full -> freed -> two PADRs race for it)
+    cases += FULLSCALE[1:]
     if tier == "thorough":
-        cases += THOROUGH_FULLSCALE
+        cases += FULLSCALE[:1] + THOROUGH_FULLSCALE
     return cases
 
 
@@ -432,11 +483,11 @@ def classify(case, impl, model):
 
 
 def signature(case, impl, models):
-    """Which recorded defect explains a case where the implementation matches a defective variant only."""
+    """Which recorded defect explains a case where the implementation matches a non-repaired variant only."""
     if not case.startswith("tb"):
         return None
     io, idump = split_tb(impl)
-    mo, _ = split_tb(models["repaired"])
+    mo, mdump = split_tb(models["repaired"])
     if io is None or mo is None:
         return None
     ops = tb_ops(case)
@@ -444,15 +495,22 @@ def signature(case, impl, models):
         if x == y:
             continue
         kind = ops[i].split("/")[0] if i < len(ops) else "?"
-        if kind == "T" and x.startswith("term:") and y == "none":
-            return "padt-from-foreign-tuple"
-        if kind == "S" and x.startswith("reach:") and y == "none":
-            return "session-packet-from-foreign-tuple"
-        if (kind == "R" and x.startswith("pads:0:")) or (kind == "C" and (x == "conc:0" or x.startswith("conc:0+"))):
-            m = re.search(r"n=(\d+)/", idump or "")
-            full = m and int(m.group(1)) >= 65535
-            return "session-id-0-when-space-full" if full else "session-id-0-after-restoring-0xffff"
+        if kind == "P" and x.startswith("ovl:"):
+            ids = x[4:].split("+")
+            if len(ids) != len(set(ids)):
+                return "concurrent-padr-same-session-id"
         return "other-op-%s" % kind
+    # all op outputs agree, the final table differs: which index entries are left
+    it, mt = (idump or "").split(), (mdump or "").split()
+    if len(it) == len(mt):
+        diff = [(a, b) for a, b in zip(it[2:], mt[2:]) if a != b]
+        if diff and all(a.rsplit(":", 1)[0] == b.rsplit(":", 1)[0] for a, b in diff):
+            fl = set()
+            for a, b in diff:
+                fa, fb = a.rsplit(":", 1)[1], b.rsplit(":", 1)[1]
+                fl |= {i for i in range(min(len(fa), len(fb))) if fa[i] != fb[i]}
+            if fl <= {1, 3} and all(a.rsplit(":", 1)[1].count("1") < b.rsplit(":", 1)[1].count("1") for a, b in diff):
+                return "remove-deletes-index-entry-of-another-session"
     return "final-table-only"
 
 
